@@ -1,5 +1,8 @@
 HOOK_COMMITS = ["1ae4f10", "19e3492"]
 ENGINES = [
+    {"name": "galaxysim", "path": "/verif/harness/galaxysim", "serves_properties": ["C12", "C13"],
+     "kind_free_text": "the real galaxy CNI request path (handler, network resolution, cniutil, invoke) driving recording fake plugin binaries; "
+                       "composition with ipamsim for the IPAM->plugin round trip"},
     {"name": "ipamsim", "path": "/verif/harness/ipamsim", "serves_properties": ["C01", "C02", "C03", "C04", "C05", "C06", "C07", "C08", "C09", "C10", "C11"],
      "kind_free_text": "simulated cluster around the real galaxy-ipam plugin: fake API server trackers, informer model, cooperative "
                        "scheduler owning the interleaving, fault/crash injection, recording cloud provider; rapid stateful generation"},
@@ -50,3 +53,11 @@ TEXTS["C08"] = _h("DESIGN.md §4 C08", "fault-injection property testing (rapid)
                   "Every creation index of every generated request is failed once, at the IPAM level and through Filter+Bind.")
 TEXTS["C11"] = _h("DESIGN.md §4 C11", "property-based testing (rapid): key codec round trip/injectivity and list->release differential + paging partition through the real HTTP routes",
                   "Generated names/owners/pools; the list output is fed back into release, which no test of the suite does.")
+_E2_NOTE = "Trusted: the fake plugin binary and the reference model of the expected invocation log; the CNI library's exec path is real."
+TEXTS["C12"] = {"engine": "galaxysim", "design_ref": "DESIGN.md §4 C12", "level_note": _E2_NOTE,
+    "technique": "model-based property testing with fault injection (rapid): generated configs/annotations/request sequences/plugin failure scripts vs. a reference model of the invocation log",
+    "level_text": "Every generated failure script is executed against the real daemon path and recording plugin binaries; the complete invocation log, "
+                  "stdin and args of every plugin call are compared with a reference model (ordering, pairing, rollback, retry, isolation)."}
+TEXTS["C13"] = {"engine": "galaxysim", "design_ref": "DESIGN.md §4 C13", "level_note": _E2_NOTE,
+    "technique": "property-based testing (rapid): composed round trip IPAM store -> binding annotation -> daemon -> CNI_ARGS -> plugin-side decoder",
+    "level_text": "End-to-end round trip through the real producer (galaxy-ipam Bind), the real daemon and the real consumer-side decoder, over generated masks/gateways/VLANs/IP counts."}
